@@ -67,6 +67,8 @@ type vfxSpec struct {
 	Boundary    bool   `json:"boundary"`     // extra objects whose section-length value is exactly 127,128,129,16383,16384,16385,...
 	ZeroTimes   bool   `json:"zero_times"`   // some blocks record block time 0
 	MultiSig    bool   `json:"multi_sig"`    // some transactions carry 2 or 3 signatures
+	OddRewards  bool   `json:"odd_rewards"`  // every block gets rewards; commission strings "", "7", "12.5" and one that is not a number
+	NoTxIndex   bool   `json:"no_tx_index"`  // Transaction nodes without the optional position index (archives written before the field existed)
 	Variant     int    `json:"variant"`      // alternative content for the same epoch ("another CAR of the same epoch")
 }
 
@@ -286,7 +288,7 @@ func vfxGenerate(spec vfxSpec) (*vfxTruth, []byte) {
 		for i := range positions {
 			positions[i] = i
 		}
-		if rng.Intn(3) == 0 {
+		if rng.Intn(3) == 0 && !spec.NoTxIndex { // without a recorded position the only order is the traversal order
 			positions = rng.Perm(total)
 		}
 		seq := 0
@@ -393,6 +395,9 @@ func vfxGenerate(spec vfxSpec) (*vfxTruth, []byte) {
 				dataFrame, nfr := g.frames(txb, fs, spec.FanOut)
 				metaFrame, nmfr := g.frames(mz, fs, spec.FanOut)
 				tn := ipldbindcode.Transaction{Kind: 0, Data: dataFrame, Metadata: metaFrame, Slot: int(slot), Index: vfxPP(pos)}
+				if spec.NoTxIndex {
+					tn.Index = nil
+				}
 				tb, err := tn.MarshalCBOR()
 				if err != nil {
 					panic(err)
@@ -420,8 +425,13 @@ func vfxGenerate(spec vfxSpec) (*vfxTruth, []byte) {
 			gb.Entries = append(gb.Entries, vfxEntry{Cid: hex.EncodeToString(ec.Bytes()), Hash: hex.EncodeToString(hash), NumHashes: en.NumHashes, NumTx: ntx})
 		}
 		rewardsLink := cidlink.Link{Cid: DummyCID}
-		if spec.Rewards && rng.Intn(3) == 0 {
+		if (spec.Rewards && rng.Intn(3) == 0) || spec.OddRewards {
 			rw := &confirmed_block.Rewards{Rewards: []*confirmed_block.Reward{{Pubkey: vfxAccount(0, 0).String(), Lamports: int64(slot % 1000), PostBalance: 5, RewardType: confirmed_block.RewardType_Fee}}}
+			if spec.OddRewards {
+				for _, c := range []string{"", "7", "12.5", "n/a"} {
+					rw.Rewards = append(rw.Rewards, &confirmed_block.Reward{Pubkey: vfxAccount(0, 1).String(), Lamports: 1, PostBalance: 2, RewardType: confirmed_block.RewardType_Voting, Commission: c})
+				}
+			}
 			rb, _ := proto.Marshal(rw)
 			rz, _ := tooling.CompressZstd(rb)
 			fr, _ := g.frames(rz, 0, 1)
